@@ -487,7 +487,8 @@ fn mecab_fixed() -> bool {
     .is_err()
 }
 
-fn mecab_case(rng: &mut Rng, id: &str, fixed: bool, out: &mut dyn Write) {
+/// Inputs of one MeCab conversion case: (feature.def, right-id.def, left-id.def, model.def, cost factor, generator notes).
+pub fn gen_mecab_inputs(rng: &mut Rng) -> (Vec<u8>, Vec<u8>, Vec<u8>, Vec<u8>, f64, Vec<String>) {
     let mut flags: Vec<String> = vec![];
     let wild = rng.chance(1, 10);
     let feature_def = gen_feature_def(rng, wild);
@@ -558,6 +559,11 @@ fn mecab_case(rng: &mut Rng, id: &str, fixed: bool, out: &mut dyn Write) {
         10 => -1e10,
         _ => 700.0,
     };
+    (feature_def, right_id, left_id, model, cf, flags)
+}
+
+fn mecab_case(rng: &mut Rng, id: &str, fixed: bool, out: &mut dyn Write) {
+    let (feature_def, right_id, left_id, model, cf, flags) = gen_mecab_inputs(rng);
     let obs = match guarded(|| {
         let (mut r, mut l, mut c) = (vec![], vec![], vec![]);
         vibrato::mecab::generate_bigram_info(
